@@ -175,6 +175,11 @@ func runProgram(ki int, a, b int, bound, maxExec int) result {
 	return res
 }
 
+var (
+	replayV viol
+	replayG *viol
+)
+
 func main() {
 	thorough := len(os.Args) > 1 && os.Args[1] == "thorough"
 	vsched.Filter = func(loc string) bool { return !strings.HasPrefix(loc, "bls_thresholdsign.go:") && !strings.HasPrefix(loc, "hash/") }
@@ -198,6 +203,13 @@ func main() {
 			fmt.Fprintln(os.Stderr, "HARNESS-ERROR: not a c12s replay file")
 			os.Exit(2)
 		}
+		replayV = v
+		if v.KeyKind < 0 {
+			replayG = &v
+		}
+	}
+	if len(os.Args) > 2 && os.Args[1] == "--replay" && replayG == nil {
+		v := replayV
 		kk := kinds[v.KeyKind]
 		sk := kk.mk()
 		outs := make([]string, 2)
@@ -209,6 +221,93 @@ func main() {
 			bad = bad || outs[t] != solo
 		}
 		if bad {
+			fmt.Printf("VIOLATION property=C12 replay=%s\n", os.Args[2])
+			os.Exit(1)
+		}
+		return
+	}
+	// second family: key generation / decoding calls that share NO object - only whatever
+	// package-level state the library keeps (algorithm singletons, scratch buffers)
+	type gop struct {
+		name string
+		do   func() string
+	}
+	keyStr := func(sk crypto.PrivateKey, err error) string {
+		if err != nil {
+			return "err:" + err.Error()
+		}
+		return fmt.Sprintf("%x/%x", sk.Encode(), sk.PublicKey().Encode())
+	}
+	pubStr := func(pk crypto.PublicKey, err error) string {
+		if err != nil {
+			return "err:" + err.Error()
+		}
+		return fmt.Sprintf("%x", pk.EncodeCompressed())
+	}
+	blsPkBytes := kinds[0].mk().PublicKey().Encode()
+	p256PkBytes := kinds[3].mk().PublicKey().Encode()
+	blsSkBytes := kinds[1].mk().Encode()
+	gops := []gop{
+		{"GeneratePrivateKey(BLS, seed A 32B)", func() string { return keyStr(crypto.GeneratePrivateKey(crypto.BLSBLS12381, seed(21, 32))) }},
+		{"GeneratePrivateKey(BLS, seed B 64B)", func() string { return keyStr(crypto.GeneratePrivateKey(crypto.BLSBLS12381, seed(77, 64))) }},
+		{"GeneratePrivateKey(BLS, seed C 256B)", func() string { return keyStr(crypto.GeneratePrivateKey(crypto.BLSBLS12381, seed(5, 256))) }},
+		{"GeneratePrivateKey(P-256, seed A)", func() string { return keyStr(crypto.GeneratePrivateKey(crypto.ECDSAP256, seed(21, 32))) }},
+		{"GeneratePrivateKey(P-256, seed B 64B)", func() string { return keyStr(crypto.GeneratePrivateKey(crypto.ECDSAP256, seed(77, 64))) }},
+		{"GeneratePrivateKey(secp256k1, seed B 64B)", func() string { return keyStr(crypto.GeneratePrivateKey(crypto.ECDSASecp256k1, seed(77, 64))) }},
+		{"DecodePrivateKey(BLS)", func() string { return keyStr(crypto.DecodePrivateKey(crypto.BLSBLS12381, blsSkBytes)) }},
+		{"DecodePublicKey(BLS)", func() string { return pubStr(crypto.DecodePublicKey(crypto.BLSBLS12381, blsPkBytes)) }},
+		{"DecodePublicKey(P-256)", func() string { return pubStr(crypto.DecodePublicKey(crypto.ECDSAP256, p256PkBytes)) }},
+	}
+	runG := func(a, b int, bound int) result {
+		desc := fmt.Sprintf("no shared object: [%s] || [%s]", gops[a].name, gops[b].name)
+		res := result{Desc: desc, Bound: bound}
+		solo := []string{gops[a].do(), gops[b].do()}
+		outs := make([]string, 2)
+		mk := func() []func() {
+			outs[0], outs[1] = "", ""
+			return []func(){func() { outs[0] = gops[a].do() }, func() { outs[1] = gops[b].do() }}
+		}
+		var last []int
+		var lastOuts string
+		check := func(x *vsched.Exec) {
+			last, lastOuts = x.Choices(), strings.Join(outs, "|")
+			if x.Diverged != "" {
+				fmt.Fprintf(os.Stderr, "HARNESS-ERROR: schedule replay diverged: %s (%s)\n", x.Diverged, desc)
+				os.Exit(2)
+			}
+			add := func(key, what string, detail ...string) {
+				if len(res.Violations) < 3 {
+					res.Violations = append(res.Violations, viol{key, what, desc, -1, []int{a, b}, x.Choices(), detail})
+				}
+			}
+			if x.Deadlock || x.Panic != "" {
+				add("keygen-concurrent:deadlock-or-panic", "deadlock or panic: "+x.Panic)
+				return
+			}
+			for t, o := range []int{a, b} {
+				if outs[t] != solo[t] {
+					add("keygen-concurrent:result-differs-from-solo", fmt.Sprintf("%s returned a different key while %s was running in another goroutine than when run alone", gops[o].name, gops[[]int{a, b}[1-t]].name),
+						"concurrent: "+short(outs[t]), "alone:      "+short(solo[t]))
+				}
+			}
+		}
+		st := vsched.Explore(mk, bound, maxExec, nil, check)
+		res.Execs, res.Points, res.Capped = st.Executions, st.Points, st.Capped
+		if last != nil {
+			x := vsched.Run(mk(), last, nil)
+			if x.Diverged != "" || strings.Join(outs, "|") != lastOuts {
+				fmt.Fprintf(os.Stderr, "HARNESS-ERROR: replay of a schedule of %s is not deterministic\n", desc)
+				os.Exit(2)
+			}
+			res.Replayed = 1
+		}
+		return res
+	}
+	if replayG != nil {
+		// re-explore the one program: deterministic, reports the violation again if it is still there
+		r := runG(replayG.Ops[0], replayG.Ops[1], bound)
+		fmt.Printf("%s: %d schedules, %d violations\n", r.Desc, r.Execs, len(r.Violations))
+		if len(r.Violations) > 0 {
 			fmt.Printf("VIOLATION property=C12 replay=%s\n", os.Args[2])
 			os.Exit(1)
 		}
@@ -238,6 +337,19 @@ func main() {
 				w.WriteByte('\n')
 				w.Flush()
 			}
+		}
+	}
+	for a := range gops {
+		for b := a; b < len(gops); b++ {
+			pi++
+			if pi%shardN != shardK {
+				continue
+			}
+			r := runG(a, b, bound)
+			js, _ := json.Marshal(r)
+			w.Write(js)
+			w.WriteByte('\n')
+			w.Flush()
 		}
 	}
 }
